@@ -64,8 +64,13 @@ int skinny128_parallel_ecb_init(Skinny128ParallelECB_t *ecb)
     Skinny128Key_t *ctx;
     if (!ecb)
         return 0;
-    if ((ctx = calloc(1, sizeof(Skinny128Key_t))) == NULL)
+    if ((ctx = calloc(1, sizeof(Skinny128Key_t))) == NULL) {
+        /* Leave the object inert so that cleanup and other calls are safe */
+        ecb->vtable = 0;
+        ecb->ctx = 0;
+        ecb->parallel_size = 4 * SKINNY128_BLOCK_SIZE;
         return 0;
+    }
     ecb->vtable = 0;
     ecb->ctx = ctx;
     ecb->parallel_size = 4 * SKINNY128_BLOCK_SIZE;
